@@ -22,14 +22,21 @@ def tree_record(tree):
 
 
 def call(tree, g, A, fixed, rng):
-    alleles = [str(i) for i in range(A)]
+    """allele tokens 0..A-1 are embedded (increasing) into the library's allele indexes 0..63: identity half of the time, otherwise
+    a random subset that reaches the upper half of the 64-bit state sets; parsimony does not depend on the names of the states"""
+    if rng.random() < 0.5:
+        emb = list(range(A))
+    else:
+        emb = sorted(rng.sample(range(64), A)) if rng.random() < 0.6 else sorted(rng.sample(range(30, 64), A))
+    inv = {e: t for t, e in enumerate(emb)}
+    alleles = ["a%d" % i for i in range(emb[-1] + 1)]
     kw = {}
     if fixed is not None:
-        kw["ancestral_state"] = fixed if rng.random() < 0.5 else alleles[fixed]
-    anc, muts = tree.map_mutations(np.array(g, dtype=np.int8), alleles, **kw)
+        kw["ancestral_state"] = emb[fixed] if rng.random() < 0.5 else alleles[emb[fixed]]
+    anc, muts = tree.map_mutations(np.array([(-1 if x == -1 else emb[x]) for x in g], dtype=np.int8), alleles, **kw)
     rec = tree_record(tree)
-    rec.update(genotypes=list(g), A=A, fixed=-1 if fixed is None else fixed, anc=alleles.index(anc),
-               muts=[dict(node=int(m.node), der=alleles.index(m.derived_state), parent=int(m.parent)) for m in muts])
+    rec.update(genotypes=list(g), A=A, fixed=-1 if fixed is None else fixed, anc=inv.get(alleles.index(anc), 99), emb=emb,
+               muts=[dict(node=int(m.node), der=inv.get(alleles.index(m.derived_state), 99), parent=int(m.parent)) for m in muts])
     return rec
 
 
